@@ -26,6 +26,7 @@ const (
 	sBlockMsg    // block in place with type and message only
 	sBlockCached // block with a result object the slot created once and returns every time
 	sBlockRearm  // block with the slot's own result object, armed anew for every entry with a cause of varying completeness
+	sPanicDone   // statistic slots only: hears the outcome quietly and panics when it is told the completion
 )
 
 type SlotSpec struct {
@@ -49,9 +50,9 @@ func (P) Engine() string { return "E1" }
 
 func (P) Describe() harness.Description {
 	return harness.Description{
-		MustHit: []string{"blocked_in_place_with_partial_cause", "colliding_orders", "long_chain_with_ties", "blocked_by_first_blocker", "panic_in_prepare", "panic_in_check", "panic_in_stat", "exit_handler_panicked", "block_error_checked_after_reuse", "pool_object_reused"},
+		MustHit: []string{"blocked_in_place_with_partial_cause", "colliding_orders", "long_chain_with_ties", "blocked_by_first_blocker", "panic_in_prepare", "panic_in_check", "panic_in_stat", "panic_at_completion", "exit_handler_panicked", "block_error_checked_after_reuse", "pool_object_reused"},
 		Level:   "exploration",
-		Rule: "case = (chain of 0-5 (in 12% of the kinds 6-40) prepare, rule-check and statistic recording slots with arbitrary and colliding order values, each scripted per entry to pass / return nil / block (fresh result, or the pooled result reset in place with the full cause, the type only, or type and message) / panic; exit handlers that panic; 2-8 entries entered and exited in any order so that pooled contexts and results are recycled under a seeded pool policy). " +
+		Rule: "case = (chain of 0-5 (in 12% of the kinds 6-40) prepare, rule-check and statistic recording slots with arbitrary and colliding order values, each scripted per entry to pass / return nil / block (fresh result, or the pooled result reset in place with the full cause, the type only, or type and message) / panic (statistic slots when they hear the outcome or when they hear the completion); exit handlers that panic; 2-8 entries entered and exited in any order so that pooled contexts and results are recycled under a seeded pool policy). " +
 			"Oracle: the call log of every Entry equals the stable sort by order of each slot kind, prepare -> rule check -> statistic; the first blocking rule-check slot defines the returned block error and no later rule-check slot runs; without panics every statistic slot is told the outcome exactly once and the completion exactly when the entry had passed; no panic escapes Entry or Exit and a panicking request is admitted; every returned *BlockError keeps its type, message, rule and value while later entries run. " +
 			"non-trivial = a block and a panic occurred in one run with colliding orders; distinct = hash(config, ops)",
 		Assumptions: []string{"for entries in which a slot or exit handler panicked only 'no panic escapes' and 'the request is admitted' are asserted (the statement exempts statistic notifications under panics)"},
@@ -98,6 +99,8 @@ func (P) Gen(rng *sim.Rng, tier string) *harness.Case {
 				default:
 					if rng.Chance(0.04) {
 						s = sPanic
+					} else if rng.Chance(0.04) {
+						s = sPanicDone
 					}
 				}
 				if ownResult && (s == sBlock || s == sBlockPooled || s == sBlockBare || s == sBlockMsg || s == sBlockCached || s == sBlockRearm) {
@@ -242,8 +245,11 @@ func (s *stat) OnEntryBlocked(ctx *base.EntryContext, be *base.BlockError) {
 	}
 }
 func (s *stat) OnCompleted(ctx *base.EntryContext) {
-	e, _ := s.script(ctx)
+	e, sc := s.script(ctx)
 	s.w.log = append(s.w.log, logRec{e, s.id, "completed"})
+	if sc == sPanicDone {
+		panic(fmt.Sprintf("scripted panic in statistic slot %d at the completion", s.id))
+	}
 }
 
 type beSnap struct {
@@ -480,7 +486,18 @@ func (P) Exec(c *harness.Case) *harness.Outcome {
 					o.Probe("exit_handler_panicked")
 					sawPanic = true
 				}
-				if !m.panicked && !m.exitP {
+				doneP := false
+				for _, id := range byKind[2] {
+					if m.passed && scriptOf(id, op.E) == sPanicDone {
+						doneP = true
+					}
+				}
+				if doneP && !m.panicked {
+					// (the call above has shown that the panic stayed inside Exit)
+					o.Probe("panic_at_completion")
+					sawPanic = true
+				}
+				if !m.panicked && !m.exitP && !doneP {
 					var want []logRec
 					for _, id := range byKind[2] {
 						want = append(want, logRec{op.E, id, "completed"})
